@@ -154,6 +154,10 @@ def _gen_inflate(rng, fi, data, lay):
     if c < 0.3:
         f = rng.choice(lay["fields"])
         off, reg = f["len_start"], "inflate-field-length"
+    elif c < 0.42 and lay["other_fields"]:
+        # any position inside a metadata field (windows mapping, locations, id map): nested counts and lengths live there
+        f = rng.choice(lay["other_fields"])
+        off, reg = rng.randrange(f["data_start"], max(f["end"] - 4, f["data_start"] + 1)), "inflate-meta-any"
     elif c < 0.55:
         f = rng.choice([x for x in lay["fields"] if x["id"] != 1] or lay["fields"])
         off, reg = f["data_start"], "inflate-field-count"
@@ -271,6 +275,25 @@ def gen_corruption(seed):
     fi = 0 if rng.random() < 0.6 else 1
     data, lay = fs[fi], _LAYOUT[fi]
     c0 = rng.random()
+    if 0.22 <= c0 < 0.29:
+        # over-long encoding of a small number: a run of 0x80 continuation bytes and then 0, 1 or 2, written over k bytes.
+        # Where those k bytes were "a count and the (k-1) bytes it announced", everything after stays aligned and the
+        # decoder meets a count of zero (or one, or two) it never sees in real data.
+        k = rng.choice([2, 3, 3, 4])
+        if rng.random() < 0.6 and lay["other_fields"]:
+            f = rng.choice(lay["other_fields"])
+            reg = "overlong-small-meta:%d" % f["id"]
+        else:
+            f = rng.choice(lay["zone_fields"])
+            reg = "overlong-small-zone"
+        off = rng.randrange(f["data_start"], max(f["end"] - k, f["data_start"] + 1))
+        want = [0x80] * (k - 1) + [rng.choice([0, 0, 1, 2])]
+        plan = [["sub", off + i, b] for i, b in enumerate(want) if off + i < len(data) and data[off + i] != b]
+        if plan:
+            return {
+                "prop": PROP, "seed": seed, "mode": "corrupt", "file": fi, "plan": plan, "regions": [reg] * len(plan),
+                "all_ids": False, "extra_ids": rng.randrange(0, 3), "ids_seed": rng.randrange(1 << 30), "tracemalloc": False,
+            }  # fmt: skip
     if 0.17 <= c0 < 0.22:
         r = _gen_utc_id(rng, fi, data, lay)
         if r is not None:
